@@ -323,6 +323,21 @@ func runC13(c *Ctx) {
 				c.Eval(fmt.Sprintf("jsonstr|%v|%d", exp == "err", len(lit)/8))
 				c.Model("jsonstr-dec", "jsonstr dec "+hx(lit), exp, d2)
 			}
+			// the same literal as the *name of a member*: read by the object reader (jsonparser.ObjectEach, with the standard
+			// library as fallback since F-C13-d), it must be the text the model's reader gives for the literal
+			d3 := map[string]any{"document": "{" + lit + ":1}"}
+			exp3 := "err"
+			if !c.Guard("K-jsonstr", "panic:json-member-name", d3, func() {
+				if o, ok := types.JSONToXValue([]byte("{" + lit + ":1}")).(*types.XObject); ok {
+					if ps := o.Properties(); len(ps) == 1 {
+						exp3 = "ok " + hx(ps[0])
+					} else if len(ps) == 0 {
+						exp3 = "dropped"
+					}
+				}
+			}) && !strings.Contains(lit, "__default__") {
+				c.Model("jsonkey-dec", "jsonstr dec "+hx(lit), exp3, d3)
+			}
 		}
 	}
 
